@@ -14,6 +14,7 @@ from .. import runner, vocab
 from ..common import lib, parse, stream, viol
 
 PID = "C19"
+ON_LIBRARY_RAISE = "skip"  # the statement is about values that are produced; a raising parse is C01's finding
 LEVEL = "model_checking"
 RULE = (
     "States = part-of-day keys reachable from every base part of day by applying the registered early/late rule with a real match of every modifier "
